@@ -44,8 +44,8 @@ ObsRes(p, g, o) ==
    pk |-> IF o.disp = "slow" /\ o.st = PP /\ p.kind # "ohp" THEN PtrKind(p, g.alen, o.ptr) ELSE "none",
    pi |-> IF o.disp = "slow" /\ o.st = PP /\ p.kind # "ohp" THEN PtrIdx(p, g.alen, o.ptr) ELSE 0,
    why |-> "observed"]
-TwinRes(tw) == [disp |-> IF tw.disp \in {"forward", "deliver", "slow"} THEN tw.disp ELSE "discard",
-                eg |-> tw.eg, xover |-> FALSE, st |-> tw.st, code |-> tw.code, pk |-> "none", pi |-> 0, why |-> "observed"]
+TwinRes(p, tw) == [disp |-> IF tw.disp \in {"forward", "deliver", "slow"} THEN tw.disp ELSE "discard",
+                eg |-> tw.eg, xover |-> XoverSeen(p, tw), st |-> tw.st, code |-> tw.code, pk |-> "none", pi |-> 0, why |-> "observed"]
 
 \* ---------------------------------------------------------------- C09 (+ the SCMP clauses of C15)
 MutableOff(p, alen, x) ==
@@ -85,7 +85,7 @@ Keys(cf, p, g, o, s, tw) ==
   LET r == ObsRes(p, g, o) IN
   ({C01Key(cf, p, r), C05Key(cf, p, r), C06Key(cf, p, r), C12Key(cf, p, r), C13Key(cf, p, r),
     C15Key(cf, p, r),
-    IF p.kind = "epic" /\ tw.disp # "none" THEN C13TwinKey(cf, p, r, TwinRes(tw)) ELSE "",
+    IF p.kind = "epic" /\ tw.disp # "none" THEN C13TwinKey(cf, p, r, TwinRes(p, tw)) ELSE "",
     IF o.disp = "slow" /\ s.ran /\ ~s.err /\ s.kind = "orig" THEN C06Reflect(cf, p, s.phf - p.hf = 1) ELSE "",
     IF o.disp = "panic" THEN "panic" ELSE ""}
    \cup C09Keys(cf, p, g, o, s) \cup C15ScmpKeys(cf, p, o, s)) \ {""}
